@@ -29,6 +29,36 @@ def module_dir(module_file):
     return module_file[:-3]
 
 
+def static_inits(repo, rel, name):
+    """every initialisation site of a OnceLock static in its defining file (`NAME.get_or_init(F)`, `NAME.set(V)`), as Rust
+    tuples (text, closure producing the value): the native fact `table_initialisers_agree` evaluates each of them"""
+    text = open(os.path.join(repo, rel)).read()
+    code = re.sub(r'//[^\n]*', lambda m: ' ' * len(m.group(0)), text)
+    items, seen = [], set()
+    for m in re.finditer(r'\b%s\s*\.\s*(get_or_init|set)\s*\(' % name, code):
+        o = m.end() - 1
+        depth, j = 0, o
+        while True:
+            if code[j] == '(':
+                depth += 1
+            elif code[j] == ')':
+                depth -= 1
+                if depth == 0:
+                    break
+            j += 1
+        arg = ' '.join(code[o + 1:j].split())
+        # `Self` is the type of the innermost impl block above the occurrence
+        impls = [mm.group(1) for mm in re.finditer(r'^impl(?:<[^>]*>)?\s+(?:[A-Za-z_:<>&\s]+\s+for\s+)?([A-Za-z_][A-Za-z_0-9]*)', code[:m.start()], flags=re.M)]
+        if 'Self' in arg and impls:
+            arg = re.sub(r'\bSelf\b', impls[-1], arg)
+        expr = ('%s()' % arg) if m.group(1) == 'get_or_init' else arg
+        if expr in seen:
+            continue
+        seen.add(expr)
+        items.append('(%s, Box::new(|| %s))' % (json.dumps(m.group(1) + '(' + arg + ')'), expr))
+    return 'let inits: Vec<(&str, Box<dyn Fn() -> ZTable>)> = vec![%s];' % ', '.join(items)
+
+
 def splice(repo, scratch, kind='kani'):
     cfg = json.load(open(os.path.join(HERE, 'splice.json')))
     if os.path.exists(scratch):
@@ -57,11 +87,19 @@ def splice(repo, scratch, kind='kani'):
         os.makedirs(d, exist_ok=True)
         text = open(os.path.join(HERE, 'harness', ent['harness'])).read()
         text = text.replace('//@ORACLE', oracle)
+        if '//@STATIC-INITS' in text:
+            text = text.replace('//@STATIC-INITS', static_inits(repo, 'src/board/zkey.rs', 'TABLE'))
         for inc in re.findall(r'^//@INCLUDE (\S+)$', text, flags=re.M):
             text = text.replace('//@INCLUDE ' + inc, open(os.path.join(HERE, 'harness', inc)).read())
         hf = os.path.join(d, modname + '.rs')
         open(hf, 'w').write(text)
         added_files.append(os.path.relpath(hf, scratch))
+    if kind == 'replay':
+        # process-level replay tests: an integration-test file of the scratch copy (the repository has no tests/ directory of its own)
+        if os.path.exists(os.path.join(repo, 'tests')):
+            raise SpliceError('repository has a tests/ directory: process-level replay file would mix with it')
+        os.makedirs(os.path.join(scratch, 'tests'))
+        shutil.copy(os.path.join(HERE, 'replay', 'bin_replay.rs'), os.path.join(scratch, 'tests', 'verif_replay_bin.rs'))
     # ---- demonstrate that nothing else differs
     for root, _, files in os.walk(os.path.join(scratch, 'src')):
         for fn in files:
@@ -81,6 +119,11 @@ def splice(repo, scratch, kind='kani'):
                     raise SpliceError('unexpected difference in ' + rel)
             elif a != b:
                 raise SpliceError('unexpected difference in ' + rel)
+    # fresh modification times: the shared build cache must never serve an artifact built from an earlier copy
+    for sub in ('src', 'tests'):
+        for root, _, files in os.walk(os.path.join(scratch, sub)):
+            for fn in files:
+                os.utime(os.path.join(root, fn), None)
     return {'added_files': added_files, 'touched': touched}
 
 
